@@ -110,7 +110,7 @@ Fixpoint nm_no_panic (n : wdns_names) : Prop :=
 (* labels are byte strings of at most 63 octets *)
 Fixpoint nm_labels_ok (n : wdns_names) : Prop :=
   match n with
-  | NmLabel l r => Forall wdns_is_byte l /\ wdns_len l <= 63 /\ nm_labels_ok r
+  | NmLabel l r => Forall wdns_is_byte l /\ 1 <= wdns_len l <= 63 /\ nm_labels_ok r
   | _ => True
   end.
 
@@ -154,6 +154,34 @@ Proof.
   intros. unfold wdns_parse_name, wdns_parse_name_fuel. apply wdns_parse_name_go_no_fuel. lia.
 Qed.
 
+(* finite-domain facts about the label-length octet, checked by computation over 0..255 *)
+Lemma forall_range_lift : forall (P : Z -> bool) n,
+  forallb P (map Z.of_nat (seq 0 n)) = true -> forall x, 0 <= x < Z.of_nat n -> P x = true.
+Proof.
+  intros P n H x Hx. rewrite forallb_forall in H. apply H.
+  apply in_map_iff. exists (Z.to_nat x). split; [lia|]. apply in_seq. lia.
+Qed.
+
+Lemma byte_label_octet : forall x, 0 <= x < 256 -> Z.land x 192 = 0 -> Z.land x 63 = x.
+Proof.
+  intros x Hx H.
+  pose proof (forall_range_lift (fun x => negb (Z.land x 192 =? 0) || (Z.land x 63 =? x)) 256) as L.
+  specialize (L eq_refl x Hx). apply orb_true_iff in L. destruct L as [L|L].
+  - rewrite H in L. discriminate.
+  - apply Z.eqb_eq in L. exact L.
+Qed.
+
+(* a length octet 1..63 is read back as a label of that length *)
+Lemma label_octet_1_63 : forall n, 1 <= n <= 63 -> (n =? 0) = false /\ Z.land n 192 = 0 /\ Z.land n 63 = n.
+Proof.
+  intros n Hn.
+  pose proof (forall_range_lift (fun n => (n =? 0) || ((Z.land n 192 =? 0) && (Z.land n 63 =? n))) 64) as L.
+  specialize (L eq_refl n ltac:(lia)). apply orb_true_iff in L. destruct L as [L|L].
+  - apply Z.eqb_eq in L. lia.
+  - apply andb_true_iff in L. destruct L as [L1 L2]. apply Z.eqb_eq in L1. apply Z.eqb_eq in L2.
+    repeat split; auto. apply Z.eqb_neq. lia.
+Qed.
+
 Lemma land63_range : forall x, 0 <= Z.land x 63 <= 63.
 Proof.
   intros. split.
@@ -176,17 +204,20 @@ Proof.
   induction fuel as [|fuel IH]; intros packet bytes Hp Hb; [split; exact I|].
   cbn [wdns_parse_name_go].
   destruct bytes as [|x bytes1]; [split; exact I|].
-  destruct (x =? 0); [split; exact I|].
+  destruct (x =? 0) eqn:Ex0; [split; exact I|].
   pose proof (land63_range x) as R.
-  destruct (Z.land x 192 =? 0).
+  destruct (Z.land x 192 =? 0) eqn:Ex192.
   - destruct (wdns_len (x :: bytes1) <? 1 + Z.land x 63) eqn:El; [split; exact I|].
+    assert (Hx63 : Z.land x 63 = x).
+    { apply byte_label_octet; [inv Hb; assumption | apply Z.eqb_eq; assumption]. }
+    apply Z.eqb_neq in Ex0.
     destruct (wdns_slice_ok (x :: bytes1) 1 (1 + Z.land x 63)) as [label E1]; try lia.
     destruct (wdns_slice_ok (x :: bytes1) (1 + Z.land x 63) (wdns_len (x :: bytes1))) as [rest E2]; try lia.
     rewrite E1, E2. cbn [nm_no_panic nm_labels_ok].
     pose proof (Forall_slice _ _ _ _ _ Hb E1). pose proof (Forall_slice _ _ _ _ _ Hb E2).
     destruct (IH packet rest Hp H0) as [A B].
     apply wdns_slice_inv in E1. destruct E1 as (_ & _ & _ & _ & L1).
-    repeat split; auto. lia.
+    repeat split; auto; lia.
   - destruct (Z.land x 192 =? 192); [|split; exact I].
     destruct (wdns_len (x :: bytes1) <? 2) eqn:E2b; [split; exact I|].
     destruct bytes1 as [|y bytes2]; [vm_compute in E2b; discriminate|].
